@@ -37,17 +37,22 @@ WRITER_PINS = ['conversion_utils.compressor', 'conversion_utils.numpy_producer',
                'conversion_utils.MinimalInlineReader.get_format_code', 'conversion_utils.MinimalInlineReader.self_test',
                'conversion_utils.MinimalInlineReader.read_line']
 
+COORD_PINS = ['utils.coord_to_index', 'read.SgzReader.get_inline_index', 'read.SgzReader.read_inline_number',
+              'read.SgzReader.get_crossline_index', 'read.SgzReader.read_crossline_number', 'read.SgzReader.get_zslice_index',
+              'read.SgzReader.read_zslice_coord', 'read.SgzReader.get_trace_by_coord']
+
 PROPS = {
     'C01': dict(gen_targets=['Producer', 'Utils', 'Reader'], pins=WRITER_PINS, harness='writer.py',
                 trusted=['tools/genx_producer.py + tools/miniast.py (structural, fail-closed extraction of the producers\' arithmetic)',
                          'hand model (coq/Model/Writer.v): numpy slicing clips, np.pad edge = clamp, buffer row a of plane set p = padded row p*bs0+a, zfpy.compress_numpy emits unit codes in C order (validated: harness O3 + byte-exact comparison of every array handed to the compressor)'],
                 assumptions=['FIFO order of the two queues (C16)', 'MinimalInlineReader.read_line(L) returns line L of the SEG-Y (pinned; validated by the reduced-I/O route cases)',
                              'VDS/ZGY routes: not executed in the quick tier (ZGY cannot run in this sandbox: np.round_)']),
-    'C02': dict(gen_targets=READER_TARGETS, pins=READER_PINS, harness='reads.py',
+    'C02': dict(gen_targets=READER_TARGETS, pins=READER_PINS + COORD_PINS, harness=['reads.py', 'coords.py'],
                 trusted=['positive denominators of the rate fraction assumed when comparing rationals'],
                 assumptions=['codec values are abstract: results are provenance grids; bitwise equality follows for any unit-local codec'],
                 notes=[]),
-    'C14': dict(gen_targets=READER_TARGETS, pins=READER_PINS, harness='reads.py', trusted=[], assumptions=[]),
+    'C14': dict(gen_targets=READER_TARGETS, pins=READER_PINS + COORD_PINS, harness=['reads.py', 'coords.py'], trusted=[],
+                assumptions=['by-number / by-coordinate entry points (coord_to_index + the ordinal methods) are pinned and checked by the direct oracle coords.py; the ordinal methods are proved']),
     'C07': dict(gen_targets=READER_TARGETS, pins=READER_PINS, harness='reads.py', trusted=[],
                 assumptions=['I/O traces of model and implementation are compared after coalescing adjacent ranges']),
     'C03': dict(gen_targets=['Version', 'Header', 'Producer', 'Reader', 'Utils'], pins=['conversion_utils.make_header_numpy', 'conversion_utils.make_header_seismic_file'],
